@@ -1,5 +1,5 @@
 SPECIFICATION ESpec
 CONSTANTS MaxRegs = 2
 MaxSlots = 2
-INVARIANTS ETypeOK NoLeak OneEnterPerServedSlot FailStops AbsentPassesThrough EEmitAll
+INVARIANTS ETypeOK NoLeak UnconsumedTypeDoesNotLeak OneEnterPerServedSlot FailStops AbsentPassesThrough EEmitAll
 CHECK_DEADLOCK FALSE
